@@ -4,6 +4,7 @@ import SignaloModel.Proofs.ConvProofs
 import SignaloModel.Proofs.SgTableChecks
 import SignaloModel.Proofs.RegConvLinear
 import SignaloModel.Proofs.RegMisc
+import SignaloModel.Proofs.FullRing
 /-!
 # C05 — Convolution is an edge-padded FIR; delay shifts by exactly N
 
@@ -12,6 +13,9 @@ The property theorems for C05: `#check` prints each statement, `#print axioms` i
 -/
 open SignaloModel
 
+#check @Registry.delay_inject_full
+#check @Registry.conv_inject_full
+#check @Registry.conv_inject_full_run
 #check @Registry.normalized_of_sum_zero
 #check @Registry.normalized_sum
 #check @Registry.conv_registry_normalized_const
@@ -30,6 +34,9 @@ open SignaloModel
 #check @Fir.convL_const
 #check @Tables.sg_close
 
+#print axioms Registry.delay_inject_full
+#print axioms Registry.conv_inject_full
+#print axioms Registry.conv_inject_full_run
 #print axioms Registry.normalized_of_sum_zero
 #print axioms Registry.normalized_sum
 #print axioms Registry.conv_registry_normalized_const
